@@ -2,7 +2,7 @@
 //! any two visited states that falsify no clause must have equal hashes exactly when their unsatisfied non-unit
 //! clauses, restricted to unassigned literals, coincide clause by clause.  Sizes keep the prime product < 2^128.
 use crate::CaseResult;
-use rsdd::repr::{CnfHasher, Literal, PartialModel, VarLabel};
+use rsdd::repr::{Cnf, CnfHasher, Literal, PartialModel, VarLabel};
 use serde_json::{json, Value};
 
 /// every partial assignment, reached the way the top-down compiler reaches it (push, decide, recurse, pop)
@@ -45,6 +45,14 @@ pub fn run(c: &Value) -> CaseResult {
             ((x.unsigned_abs() - 1) as usize, x > 0)
         }).collect()).unwrap_or_default()).collect()).unwrap_or_default();
         let cls: Vec<Vec<Literal>> = raw.iter().map(|cl| cl.iter().map(|(v, p)| Literal::new(VarLabel::new(*v as u64), *p)).collect()).collect();
+        if c["via_cnf"].as_bool().unwrap_or(false) {
+            // the hasher a Cnf carries: built by Cnf::new from clauses that may repeat literals and come unsorted; the
+            // residual formula is read off the NORMALISED clauses the Cnf reports
+            let cnf = Cnf::new(&cls);
+            let norm: Vec<Vec<(usize, bool)>> = cnf.clauses().iter().map(|cl| cl.iter().map(|l| (l.label().value() as usize, l.polarity())).collect()).collect();
+            let mut h = cnf.hasher().clone();
+            return dfs(&mut h, &norm, &mut vec![None; cnf.num_vars()], 0, &mut vec![]);
+        }
         let mut h = CnfHasher::new(&cls, n);
         return dfs(&mut h, &raw, &mut vec![None; n], 0, &mut vec![]);
     }
@@ -121,6 +129,19 @@ pub fn candidates(seed: u64) -> Vec<Value> {
             vs
         }).collect();
         out.push(json!({"case": "hasher_all", "nvars": nv, "cnf": cnf}));
+        if k % 2 == 1 {
+            // the same formula through Cnf::new, with a literal repeated in one clause, a clause that is one literal
+            // repeated, and the literals of a clause in reverse order
+            let mut raw2 = cnf.clone();
+            let i = nx(raw2.len() as u64) as usize;
+            let l0 = raw2[i][0];
+            raw2[i].push(l0);
+            let v = 1 + nx(nv) as i64;
+            raw2.push(vec![v, v]);
+            let j = nx(raw2.len() as u64) as usize;
+            raw2[j].reverse();
+            out.push(json!({"case": "hasher_all", "nvars": nv, "cnf": raw2, "via_cnf": true}));
+        }
     }
     for _ in 0..600 {
         let nv = 2 + nx(3);
